@@ -474,6 +474,23 @@ class Model:
             'unit_list': sorted(u.relpath for u in self.units.values()),
         }
 
+    def rebindable_globals(self):
+        """(module, name) of every module-level name that some function rebinds (`global name; name = ...`)."""
+        if getattr(self, '_rebindable', None) is None:
+            out = set()
+            for fi in self.functions.values():
+                declared = set()
+                for n in ast.walk(fi.node):
+                    if isinstance(n, ast.Global):
+                        declared.update(n.names)
+                if not declared:
+                    continue
+                for n in ast.walk(fi.node):
+                    if isinstance(n, ast.Name) and isinstance(n.ctx, ast.Store) and n.id in declared:
+                        out.add((fi.modname, n.id))
+            self._rebindable = out
+        return self._rebindable
+
     def subclasses_of(self, base):
         return [c for c in self.classes.values() if c is not base and c.is_subclass_of(base)]
 
